@@ -289,6 +289,10 @@ def run(v, tier, seed):
     LNSH = 4; lists_prefix = W("trav_lists")
     rows_l, sl = harness(["trav", "lists", LNSH, ",".join(str(k) for k in range(LNSH)), lists_prefix, W("trav_lists_report.ndjson")], W("trav_lists_report.ndjson"), "traversal enumeration (lists)", timeout=1500)
     judge_rows(rows_l, "traversal (lists universe)")
+    # the universe with a node name that contains a backslash and clauses with an ESCAPED backslash in front of a real wildcard / list comma (always complete)
+    bs_prefix = W("trav_bs")
+    rows_b, sb = harness(["trav", "bs", 1, "0", bs_prefix, W("trav_bs_report.ndjson")], W("trav_bs_report.ndjson"), "traversal enumeration (bs)", timeout=600)
+    judge_rows(rows_b, "traversal (bs universe)")
     wide_prefix = W("trav_wide")
     rows_w, sw = harness(["trav", "wide", n_wide, seed, wide_files, wide_prefix, W("trav_wide_report.ndjson")], W("trav_wide_report.ndjson"), "traversal, random wide cases", timeout=1500)
     judge_rows(rows_w, "traversal (random wide case)")
@@ -319,6 +323,7 @@ def run(v, tier, seed):
         if sl:
             for k in range(LNSH):
                 if "%s.%d.ndjson" % (lists_prefix, k) in sl["files"]: futs_tt.append(ex.submit(trav_trace, "%s.%d.ndjson" % (lists_prefix, k), "lists", (k, LNSH)))
+        if sb and ("%s.0.ndjson" % bs_prefix) in sb["files"]: futs_tt.append(ex.submit(trav_trace, "%s.0.ndjson" % bs_prefix, "bs", (0, 1)))
         if sw:
             for p in sw["files"]: futs_tt.append(ex.submit(trav_trace, p, "none"))
         futs_rt = []
@@ -422,7 +427,7 @@ def run(v, tier, seed):
     cov = {"states": tot["states"], "transitions": tot["transitions"],
            "traces_validated_against_impl": lines_validated + route_hist + replayed,
            "traversal_cases_run_on_the_real_code_and_validated_by_tlc": lines_validated,
-           "traversal_universe": {"name": uni, "shards_run": len(uni_shards), "of": uni_nsh, "cases": su["cases"] if su else 0, "lists_universe_cases_all_shards": sl["cases"] if sl else 0, "random_wide_cases": sw["cases"] if sw else 0},
+           "traversal_universe": {"name": uni, "shards_run": len(uni_shards), "of": uni_nsh, "cases": su["cases"] if su else 0, "lists_universe_cases_all_shards": sl["cases"] if sl else 0, "bs_universe_cases": sb["cases"] if sb else 0, "random_wide_cases": sw["cases"] if sw else 0},
            "traversal_counters": trav_counts, "traversal_lines_where_F25_showed": f25_lines,
            "self_enumerated_model_check_cases": mc_cases,
            "route_model_states": route_states,
